@@ -646,7 +646,17 @@ func genStall(r *vlib.R, tier string, emit func(string)) {
 		emit(fmt.Sprintf("conc gate segmap %d %d", mode, r.U64()>>1))
 	}
 	emit(fmt.Sprintf("conc gate cache 2 %d", r.U64()>>1))
+	// the limiter store's calls racing each other behind its one lock
+	for mode := 0; mode <= 3; mode++ {
+		emit(fmt.Sprintf("conc limrace %d %d", mode, r.U64()>>1))
+	}
+	emit(fmt.Sprintf("conc limrace 0 %d", r.U64()>>1))
 	if tier == "thorough" {
+		for mode := 0; mode <= 3; mode++ {
+			for i := 0; i < 6; i++ {
+				emit(fmt.Sprintf("conc limrace %d %d", mode, r.U64()>>1))
+			}
+		}
 		for mode := 0; mode <= 2; mode++ {
 			for i := 0; i < 4; i++ {
 				emit(fmt.Sprintf("conc gate cache %d %d", mode, r.U64()>>1))
